@@ -191,6 +191,19 @@ func (ex *Exec) vtCall(g *G, fn *ssa.Function, args []Value, done func(Value)) {
 		done(B.Eq(termOf(args[0]), termOf(args[1])))
 	case "IteInt", "IteInt64":
 		done(B.Ite(termOf(args[0]), termOf(args[1]), termOf(args[2])))
+	case "IteStr":
+		a, b := termOf(args[1]), termOf(args[2])
+		for _, x := range []**smt.Term{&a, &b} {
+			if !isOrd(*x) {
+				c, okc := concStr(*x)
+				k, okp := parseOrd(c)
+				if !okc || !okp {
+					ex.unsupported("vt.IteStr of a non-ordinal string")
+				}
+				*x = B.BVC(k, OrdW)
+			}
+		}
+		done(B.Ite(termOf(args[0]), a, b))
 	case "NoLeak":
 		ex.allowLeak = false
 		done(nil)
